@@ -67,7 +67,7 @@ static sj::Value plan_to_json(const Plan &p) {
 static Plan plan_from_json(const sj::Value &j) {
     Plan p; p.cfg = j.gets("cfg", "random"); p.seed = (uint64_t)j.geti("seed"); p.index = j.geti("index", -1); p.nthreads = (int)j.geti("nthreads", 2); p.locale = j.gets("locale", "C");
     if (p.nthreads < 1) p.nthreads = 1;
-    if (p.nthreads > 16) p.nthreads = 16;
+    if (p.nthreads > rt::MAXT - 1) p.nthreads = rt::MAXT - 1;
     const sj::Value *s = j.get("sched");
     if (s) { p.policy = (int)s->geti("policy", 1); p.den = (uint64_t)s->geti("den", 16); p.quantum = (uint64_t)s->geti("quantum", 2); p.depth = (int)s->geti("depth", 2); p.sched_seed = (uint64_t)s->geti("seed", 1); }
     if (p.den < 1) p.den = 1;
@@ -201,8 +201,8 @@ static void thread_entry(int tid, void *arg) { run_program(tid, (Shared *)arg, t
 // ------------------------------------------------------------------ execution of one plan
 struct Viol { string cls, detail; };
 struct Stats {
-    uint64_t plans = 0, steps = 0, events = 0, ctx_switches = 0, seq_steps = 0, ops = 0, lib_calls = 0, threads_hist[17] = { 0 }, policy_hist[5] = { 0 };
-    uint64_t inconclusive_shadow_overflow = 0, write_shared = 0, sync_ops = 0, atomic_ops = 0, pseudo_writes = 0, outcome_cmp = 0, globals_dirty_after_seq = 0, races_seen = 0;
+    uint64_t plans = 0, steps = 0, events = 0, ctx_switches = 0, seq_steps = 0, ops = 0, lib_calls = 0, threads_hist[rt::MAXT + 1] = { 0 }, policy_hist[5] = { 0 };
+    uint64_t spin_yields = 0, inconclusive_shadow_overflow = 0, write_shared = 0, sync_ops = 0, atomic_ops = 0, pseudo_writes = 0, outcome_cmp = 0, globals_dirty_after_seq = 0, races_seen = 0;
     std::set<uint64_t> interleavings, plan_hashes, nontrivial;
     uint64_t kind[NKINDS] = { 0 };
 };
@@ -295,7 +295,7 @@ static void run_plan(const Plan &p, bool want_log, RunOut &ro, bool count = true
     if (count) {
         ST.plans++; ST.steps += res.steps; ST.events += res.events; ST.ctx_switches += res.ctx_switches; ST.seq_steps += seq_steps; ST.ops += p.ops.size();
         ST.threads_hist[p.nthreads]++; ST.policy_hist[cfg.policy % 5]++;
-        ST.write_shared += res.write_shared_locations; ST.sync_ops += res.sync_ops; ST.atomic_ops += res.atomic_ops; ST.pseudo_writes += res.pseudo_writes;
+        ST.write_shared += res.write_shared_locations; ST.sync_ops += res.sync_ops; ST.atomic_ops += res.atomic_ops; ST.pseudo_writes += res.pseudo_writes; ST.spin_yields += res.spin_yields;
         if (dirty) ST.globals_dirty_after_seq++;
         ST.races_seen += res.races.size();
         for (auto &op : p.ops) ST.kind[op.k]++;
@@ -351,6 +351,31 @@ static Plan gen_plan(const string &cfg, uint64_t seed, long long index) {
     p.locale = sim_below(&lr, 3) == 0 ? "C.UTF-8" : "C";
     static const int TS[] = { 2, 2, 2, 3, 3, 4, 4, 8, 16 };
     p.nthreads = TS[sim_below(&w, 9)];
+    if (cfg == "crowd") {
+        // hundreds of threads, one or two calls each, a handful of shared strings: counters and queues sized for "a few" threads
+        static const int CT[] = { 33, 64, 65, 128, 129, 255, 256, 257, 258, 300, 319 };
+        p.nthreads = CT[sim_below(&w, 11)];
+        if (p.nthreads > rt::MAXT - 1) p.nthreads = rt::MAXT - 1;
+        // the crowd works on labels of ONE length L: a valid TLD t, other valid TLDs of that length, an unknown label of that
+        // length and an unknown extension of t - whatever per-length or per-prefix shortcut the lookup has, everybody is in it
+        vector<string> pool;
+        int nt = 0; while (tld_list[nt].domain) nt++;
+        string t = tld_list[sim_below(&w, (uint64_t)nt)].domain; size_t L = t.size();
+        for (int k = 0; k < 6; k++) pool.push_back("u@h." + t);
+        int added = 0; for (int i = (int)sim_below(&w, (uint64_t)nt), c = 0; c < nt && added < 4; c++, i = (i + 1) % nt) if (strlen(tld_list[i].domain) == L && t != tld_list[i].domain) { pool.push_back(string("u@h.") + tld_list[i].domain); added++; }
+        pool.push_back("u@h." + string(L, 'q')); pool.push_back("u@h." + t + "zzz"); pool.push_back("u@h." + t + "zzz");
+        if (sim_below(&w, 2)) pool.push_back(g_pool[sim_below(&w, g_pool.size())]);
+        for (int t = 0; t < p.nthreads; t++) {
+            Op a; a.t = t; a.k = SET_RFC; a.v = (long long)sim_below(&w, 4); p.ops.push_back(a);
+            Op b; b.t = t; b.k = SETUP; p.ops.push_back(b);
+            int n = 1 + (int)sim_below(&w, 2);
+            for (int i = 0; i < n; i++) { Op o; o.t = t; o.k = sim_below(&w, 2) ? IS_EMAIL : TLD; o.a = pool[sim_below(&w, pool.size())]; p.ops.push_back(o); }
+        }
+        p.sched_seed = sim_next(&s);
+        unsigned k = (unsigned)sim_below(&s, 3);
+        if (k == 0) { p.policy = 2; p.quantum = 1 + sim_below(&s, 3); } else if (k == 1) { p.policy = 4; p.den = 4; } else { p.policy = 1; p.den = 2; }
+        return p;
+    }
     if (sim_below(&w, 12) == 0 && !g_idn_tld_addrs.empty()) {
         // "sweep": every thread looks up a large shared set of TLDs in its own order. Hashed or set-associative
         // caches only go wrong when two particular keys meet; a big key set makes them meet.
@@ -444,11 +469,11 @@ static sj::Value stats_json() {
     sj::Value j = sj::Value::object();
     j.set("plans", ST.plans); j.set("steps", ST.steps); j.set("logged_events", ST.events); j.set("context_switches", ST.ctx_switches); j.set("sequential_steps", ST.seq_steps);
     j.set("ops", ST.ops); j.set("outcome_comparisons", ST.outcome_cmp); j.set("write_shared_locations", ST.write_shared);
-    j.set("sync_ops", ST.sync_ops); j.set("atomic_ops", ST.atomic_ops); j.set("hidden_state_libc_calls", ST.pseudo_writes);
+    j.set("sync_ops", ST.sync_ops); j.set("atomic_ops", ST.atomic_ops); j.set("spin_yields", ST.spin_yields); j.set("hidden_state_libc_calls", ST.pseudo_writes);
     j.set("plans_where_library_statics_changed", ST.globals_dirty_after_seq); j.set("racing_pairs_seen", ST.races_seen);
     j.set("library_writable_static_bytes", (long long)rt::library_writable_bytes());
     j.set("runs_inconclusive_shadow_table_full", ST.inconclusive_shadow_overflow);
-    sj::Value th = sj::Value::object(); for (int i = 1; i <= 16; i++) if (ST.threads_hist[i]) th.set(std::to_string(i), ST.threads_hist[i]); j.set("plans_by_threads", th);
+    sj::Value th = sj::Value::object(); for (int i = 1; i < rt::MAXT; i++) if (ST.threads_hist[i]) th.set(std::to_string(i), ST.threads_hist[i]); j.set("plans_by_threads", th);
     sj::Value ph = sj::Value::object(); const char *pn[5] = { "replay", "random", "round_robin", "pct", "targeted" }; for (int i = 0; i < 5; i++) ph.set(pn[i], ST.policy_hist[i]); j.set("plans_by_strategy", ph);
     sj::Value k = sj::Value::object(); for (int i = 0; i < NKINDS; i++) k.set(KNAME[i], ST.kind[i]); j.set("ops_by_kind", k);
     j.set("distinct_interleavings_this_worker", (long long)ST.interleavings.size());
